@@ -157,6 +157,13 @@ def _limits():
     os.setsid()
 
 
+def _limits_big():
+    # counterexample extraction runs alone (no slicing, full trace): allow most of the machine
+    cap = int(os.environ.get("VERIF_CEX_MEM_GB", "44")) * (1 << 30)
+    resource.setrlimit(resource.RLIMIT_AS, (cap, cap))
+    os.setsid()
+
+
 CHECK_RE = re.compile(
     r"^Check (\d+): (.+)\n\s+- Status: (\w+)\n\s+- Description: \"(.*)\"\n\s+- Location: (.*)$", re.M
 )
@@ -193,7 +200,7 @@ def parse_kani(out):
     return res
 
 
-def run_kani(crate, scratch, h, prop, extra_args=(), tag="", extra_cfg=(), timeout_factor=1):
+def run_kani(crate, scratch, h, prop, extra_args=(), tag="", extra_cfg=(), timeout_factor=1, big=False):
     """Runs one harness; `solver=portfolio` races minisat against cadical and
     takes the first run that reaches a verdict."""
     solver = os.environ.get("VERIF_SOLVER", h.solver)
@@ -213,7 +220,7 @@ def run_kani(crate, scratch, h, prop, extra_args=(), tag="", extra_cfg=(), timeo
         e2 = dict(env)
         e2["CARGO_TARGET_DIR"] = str(tgt)
         fh = open(logf, "w")
-        p = subprocess.Popen(cmd, cwd=crate, env=e2, stdout=fh, stderr=subprocess.STDOUT, text=True, preexec_fn=_limits)
+        p = subprocess.Popen(cmd, cwd=crate, env=e2, stdout=fh, stderr=subprocess.STDOUT, text=True, preexec_fn=_limits_big if big else _limits)
         procs.append((sv, p, tgt, logf, fh))
     winner = None
     timed_out = False
@@ -430,12 +437,35 @@ def native_replay(scratch, prop, harness_name, vals, profiles=("dev", "release")
     return outs
 
 
+def miri_replay(scratch, prop, harness_name, vals):
+    """Fallback for pointer-safety failures without a native symptom: the same
+    replay under Miri (real hashbrown); Miri's 'Undefined Behavior' report confirms."""
+    run = prepare_replay_crate(scratch)
+    cex = scratch / ("cex-%s-%s.json" % (prop, harness_name.replace("#", "_")))
+    env = dict(os.environ)
+    env["RUSTFLAGS"] = "--cfg lru_mem_verif_replay --cfg %s -A warnings" % prop
+    env["MIRIFLAGS"] = "-Zmiri-disable-isolation -Zmiri-ignore-leaks"
+    env["CARGO_NET_OFFLINE"] = "true"
+    env["CARGO_TARGET_DIR"] = str(scratch / "replay-target-miri")
+    env["VERIF_TAB"] = str(int(os.environ.get("VERIF_SEED", "0") or 0) % 15)
+    try:
+        p = subprocess.run(["cargo", "+nightly", "miri", "run", "-q", "--offline", "--", str(cex)], cwd=run, env=env, stdout=subprocess.PIPE, stderr=subprocess.STDOUT, text=True, timeout=900)
+        return [("miri", p.returncode, p.stdout[-4000:])]
+    except subprocess.TimeoutExpired:
+        return [("miri", -998, "miri replay timed out")]
+
+
 def replay_reproduces(outs, prop):
     """A replay reproduces when the process reports a tagged assertion of this
     property, panics inside the crate (overflow, unwrap ...), or dies from a signal."""
     for prof, rc, out in outs:
         if rc == 3:
             continue  # REPLAY-MISMATCH
+        if prof == "miri":
+            m = re.search(r"error: Undefined Behavior: (.*)", out)
+            if m:
+                return True, prof, "Miri: Undefined Behavior: " + m.group(1)[:200]
+            continue
         if "VASSERT-FAILED" in out:
             m = re.search(r"VASSERT-FAILED (\[[A-Z0-9 ]+\].*)", out)
             if m and prop in tags_of(m.group(1)):
@@ -591,9 +621,9 @@ def _check_property(prop, tier, seed, sel, scratch, t_start):
                 props = []
                 for f in remaining[:2]:
                     props += ["--property", f["name"]]
-                r2 = run_kani(crate, scratch, h, prop, ["-Z", "concrete-playback", "--concrete-playback=print", "-Z", "unstable-options", "--cbmc-args"] + props, tag="-cex", extra_cfg=["vp_nocover"], timeout_factor=4)
+                r2 = run_kani(crate, scratch, h, prop, ["-Z", "concrete-playback", "--concrete-playback=print", "-Z", "unstable-options", "--cbmc-args"] + props, tag="-cex", extra_cfg=["vp_nocover"], timeout_factor=4, big=True)
                 if not extract_values(r2["raw"]):
-                    r2 = run_kani(crate, scratch, h, prop, ["-Z", "concrete-playback", "--concrete-playback=print"], tag="-cex2", extra_cfg=["vp_nocover"], timeout_factor=4)
+                    r2 = run_kani(crate, scratch, h, prop, ["-Z", "concrete-playback", "--concrete-playback=print"], tag="-cex2", extra_cfg=["vp_nocover"], timeout_factor=4, big=True)
                 tests = extract_values(r2["raw"])
                 want = set(f["desc"] for f in remaining)
                 tests = [t[2] for t in tests if t[1] in want] + [t[2] for t in tests if t[1] not in want and t[0] != "cover"]
@@ -608,6 +638,9 @@ def _check_property(prop, tier, seed, sel, scratch, t_start):
                 else:
                     outs = native_replay(scratch, prop, h.name, vals)
                 ok, prof, what = replay_reproduces(outs, prop)
+                if not ok and prop in MEMSAFE_OWNERS and any(f.get("cls") == "builtin" for f in remaining) and rname == h.name:
+                    outs = outs + miri_replay(scratch, prop, h.name, vals)
+                    ok, prof, what = replay_reproduces(outs, prop)
                 attempts.append({"vals": vals, "outs": [(p, c, o[-1500:]) for p, c, o in outs]})
                 if ok:
                     reproduced = (vals, prof, what, rname)
